@@ -1,9 +1,22 @@
 #!/bin/bash
 # try_seed.sh <seed-dir> <check-id>... : apply the seeded patch to /repo, run the checks, undo it.
+# Evidence files and replays written while the patch is applied are not kept (evidence must come
+# from the unchanged tree).
 SD="$1"; shift
-git -C /repo apply "$SD/patch.diff" || exit 2
+TMP=$(mktemp -d /verif/.cache/tryseed.XXXXXX)
+cp -a /verif/evidence "$TMP/evidence"
+ls /verif/replays > "$TMP/replays.before" 2>/dev/null
+git -C /repo apply "$SD/patch.diff" || { rm -rf "$TMP"; exit 2; }
 for c in "$@"; do
   OUT=$(/verif/check $c 2>&1 | grep -E "^(VIOLATION|OK|KNOWN)" | head -3)
   echo "[$c] $OUT"
+  R=$(echo "$OUT" | grep -o 'replay=[^ ]*' | head -1 | cut -d= -f2)
+  if [ -n "$R" ] && [ -f "$R" ]; then python3 -c "
+import json,sys
+d=json.load(open('$R')); f=d.get('failure') or d.get('obligation')
+print('     ->', json.dumps(f)[:300])"; fi
 done
 git -C /repo checkout -- .
+rm -rf /verif/evidence; mv "$TMP/evidence" /verif/evidence
+for f in $(ls /verif/replays 2>/dev/null); do grep -qx "$f" "$TMP/replays.before" || rm -f "/verif/replays/$f"; done
+rm -rf "$TMP"
